@@ -118,6 +118,14 @@ def run(R):
         want = hx(PREFIXES[cand[0]]) if cand else "NULL"
         if pref != want:
             bad.append(("[--enable-hashes=%s] P" % he, "crypt_preferred_method is %s, the strongest enabled default-capable method gives %s" % (pref, want), il[pi]))
+        # the header generated for this configuration promises what the library of this configuration does (seeded/C19g)
+        try:
+            import re as re_
+            mac = re_.search(r"#define\s+CRYPT_GENSALT_IMPLEMENTS_DEFAULT_PREFIX\s+(\d+)", open(os.path.join(d, "crypt.h")).read()).group(1)
+        except Exception: mac = None
+        if mac is not None and (mac == "1") != bool(cand):
+            bad.append(("[--enable-hashes=%s] crypt.h" % he, "crypt.h says CRYPT_GENSALT_IMPLEMENTS_DEFAULT_PREFIX %s; enabled default-capable methods: %s (crypt_preferred_method: %s)"
+                        % (mac, cand or "none", pref), il[pi]))
         shutil.rmtree(d, ignore_errors=True)
     # the Lean model of the generator (`mkTable`, `mkDefault`: what `C19_all_configs` is a theorem about) against the tree's own
     # gen-crypt-hashes-h, without compiling anything: singletons, leave-one-out sets, the named groups and random subsets in the quick tier,
